@@ -36,6 +36,8 @@ def must_see(tier):
         m[impl + ':iterator-outlived-clear'] = 10
         m[impl + ':outcome:StopIteration'] = 20
         m[impl + ':outcome:entry'] = 1000
+        m[impl + ':stored:final-reader'] = 20
+        m[impl + ':stored:sweep'] = 50
     m['c:outcome:RuntimeError'] = 10
     m['c:outcome:IndexError'] = 10
     return m
@@ -127,8 +129,21 @@ def run_history(fam, kind, impl, rng, rec, h):
         else None
     if is_tree and h % 6 == 5:
         sizes = None
+    # every third history: the container lives in a database; it is
+    # committed / swept now and then while cursors are alive, and at the end
+    # what was stored must be what the mutations produced
+    conn = None
+    container = None
+    if h % 3 == 1:
+        from .. import minidb
+        container = hist.make_container(fam, kind, impl, sizes, False)
+        conn = minidb.Connection(minidb.Storage(), impl)
+        conn.log_events = False
+        conn.add(container)
+        conn.commit()
     ls = hist.LockStep(fam, kind, impl, rng, rec, sizes=sizes,
-                       judge='contents', read_ops=False, adversarial=0.3)
+                       judge='contents', read_ops=False, adversarial=0.3,
+                       container=container)
     ls.g.values = [v for v in ls.g.values
                    if not isinstance(v, float) or f32(v) == v]
     ls.g.exclude = ('iand',)
@@ -148,8 +163,24 @@ def run_history(fam, kind, impl, rng, rec, h):
         d['trace'] = [brief(x, 100) for x in log[-40:]]
         rec.violation(mech, **d)
 
+    def storable():
+        if not is_tree:
+            return True
+        w_ = ls.current_walk()
+        return w_ is not None and not w_.inline_nonroot
+
     for step in range(n):
         present = ls.m.sorted_keys()
+        if conn is not None and rng.random() < 0.12:
+            if rng.random() < .5:
+                conn.cache.minimize()
+                rec.ev(impl + ':stored:sweep')
+            elif storable():
+                conn.commit()
+                rec.ev(impl + ':stored:commit')
+                from .. import minidb as _mdb
+                if is_tree and _mdb.embedded_but_leaf_has_oid(conn, ls.c):
+                    conn = None         # F34 condition: plain from here on
         r = rng.random()
         if len(cursors) < 3 and (r < 0.12 or not cursors):
             try:
@@ -267,6 +298,29 @@ def run_history(fam, kind, impl, rng, rec, h):
             log.append(('mutate', brief(ls.log[-1], 60)))
     # ---- afterwards: sound and equal to the model ---------------------------
     del cursors
+    if conn is not None and storable():
+        # what reached the database, seen by the writer after a sweep and by
+        # a fresh reader
+        try:
+            conn.commit()
+            conn.cache.minimize()
+            from .. import minidb as _mdb
+            r_ = _mdb.Connection(conn.storage, impl)
+            r_.log_events = False
+            fresh = r_.get(ls.c._p_oid)
+            gotf = harness.contents(fresh, is_mapping)
+            errsf = hist.structural_checks(fresh, is_mapping)[0] \
+                if is_tree else []
+        except Exception as e:
+            fail('stored-container-unreadable-afterwards', detail='%s: %s' % (
+                type(e).__name__, e))
+            return
+        rec.ev(impl + ':stored:final-reader')
+        if not eq(gotf, ls.m.contents()) or errsf:
+            fail('stored-container-differs-from-mutations',
+                 observed=brief(gotf, 300), expected=brief(ls.m.contents(), 300),
+                 errors=errsf[:3])
+            return
     try:
         got = harness.contents(ls.c, is_mapping)
     except Exception as e:
